@@ -15,10 +15,9 @@ from framework import pmap
 ID = 'C16'
 LEAN_MODULES = ['Pfst.Props.C16']
 THEOREMS = [
-    'Pfst.C16.scopeWalk_eq_spec_partial', 'Pfst.C16.ownedWalk_eq_owned', 'Pfst.C16.scopeWalk_filtered_partial',
-    'Pfst.C16.scopes_partition', 'Pfst.C16.symbols_partial', 'Pfst.C16.symbols_false_capture',
-    'Pfst.C16.symbols_false_match', 'Pfst.C16.symbols_false_firstiter', 'Pfst.C16.scopeWalk_false_lambdaWalrus',
-    'Pfst.Scope.walkRoot_eq', 'Pfst.Scope.step_ok', 'Pfst.Scope.next_ok',
+    'Pfst.C16.scopeWalk_eq_spec_partial', 'Pfst.C16.ownedWalk_eq_owned', 'Pfst.C16.scopeWalk_filtered',
+    'Pfst.C16.scopes_partition', 'Pfst.C16.symbols_partial', 'Pfst.C16.scopeWalk_false_lambdaWalrus',
+    'Pfst.Scope.walkRoot_eq', 'Pfst.Scope.step_ok', 'Pfst.Scope.next_ok', 'Pfst.Scope.mStep_snd', 'Pfst.Scope.fold_sym',
 ]
 RULE = ('programs = hand-written scope programs (c16_gen.FIXED: every binder kind, every expression kind as first iterable, '
         'walrus/lambda/comprehension nestings, PEP 695 forms) + random scope-heavy programs (c16_gen.SGen: nested '
@@ -53,17 +52,17 @@ TRUSTED = [
     'private names: pfst reports source identifiers; they are mangled (_Class__x) before the comparison with symtable',
     'owned r = {n | scopeOf n = r.id} is evaluated by the driver on every tree (spec_consistency), not proved',
 ]
-ASSUMPTIONS = ['hypotheses goodRoot false / goodRoot true / isCapture of the theorems are evaluated by the Lean driver on every '
-               'scope (tallied good_all / good_sym)',
+ASSUMPTIONS = ['hypothesis goodRoot of the theorems is evaluated by the Lean driver on every scope (tallied good)',
                'CPython 3.12 symtable is the judge for names and flags; the language reference (4.2, 6.2.4, 6.12, 8.7, 8.8) for '
                'node membership']
 LEVEL_TEXT = ('Lean 4 theorems about an executable model of walk(scope=True) and scope_symbols: the model walk equals the '
               'declarative scope assignment on every tree passing a computable side condition (any size/nesting), the symbol '
-              'classes equal the binding-form classification when no capture binder is present; three machine-checked '
-              'counterexamples for the cases where the property is false.  Tied to /repo by running model and code on the '
+              'classes equal the binding-form classification (all binder kinds, any `all` filter); one machine-checked '
+              'counterexample for the case where the property is false.  Tied to /repo by running model and code on the '
               'same trees every run; spec tied to CPython symtable and an independent reference.')
-LEVEL_NOTE = ('Theorems are about the model; the tie is differential.  The property is FALSE on the pinned tree (capture '
-              'binders, non-Name first iterable, walrus under lambda in a comprehension): known findings.')
+LEVEL_NOTE = ('Theorems are about the model; the tie is differential.  The property is still FALSE for a walrus under a lambda '
+              'inside a comprehension (known finding C16-F3); capture binders (F1) and non-Name first iterables (F2) were '
+              'repaired and are now covered by the positive theorems and the sweep.')
 TECHNIQUE = 'Lean 4 proof (simulation of two transition tables, finite check by kernel evaluation) + correspondence + symtable oracle'
 
 IMPLICIT = {'__class__', '__classdict__', '__type_params__', '__conditional_annotations__', '__annotate__'}
@@ -461,9 +460,8 @@ def _run(ctx, progs, do_corr=True):
                     d.append(('walk_sym', rws, mws))
                 if rs['syms'] != {k: sorted(v) for k, v in ms['syms'].items()}:
                     d.append(('syms', rs['syms'], ms['syms']))
-                ctx.tally('good_all', ms['good_all'])
-                ctx.tally('good_sym', ms['good_sym'])
-                if ms['good_all'] and mw != mow:
+                ctx.tally('good', ms['good'])
+                if ms['good'] and mw != mow:
                     ctx.brk('proof', 'scopeWalk_eq_spec_partial', f'model walk != spec on a good tree: {r["src"][:300]!r}')
                 # spec consistency: owned r is the fibre of scopeOf
                 fibre = sorted(a for a, b in so.items() if b == ms['id'])
@@ -516,6 +514,9 @@ def replay(ctx, data):
         print('replay file names a broken obligation, not an input:', [b for b in data.get('broken', [])][:3])
         return
     r = _program((w['src'],))
-    for sig, what, wit in r['fails']:
-        if sig == data.get('signature') or data.get('signature') is None:
-            ctx.fail(sig, what, wit)
+    want = data.get('signature')
+    fails = r['fails']
+    if want is not None and any(sig == want for sig, _, _ in fails):
+        fails = [f for f in fails if f[0] == want]
+    for sig, what, wit in fails:
+        ctx.fail(sig, what, wit)
